@@ -30,7 +30,7 @@ CONFIG = {
         "registry.Mounter destinations are modelled (MountFrom -> Mount per candidate -> mounted | skipped | fallback upload) and exercised through an in-harness Mounter wrapper (what remote.Repository implements), except a ReferencePusher root falling back inside Mount; status.Tracker single ownership, semaphore.Weighted and errgroup are modelled by their visible effect (per-node phase, active-task bound), not verified",
         "goroutine scheduling: theorems quantify over all interleavings of visible events accepted by the transition system; internal races are exercised (free-running goroutines with PRNG latencies/yields; controlled release orders under testing/synctest), not enumerated",
     ],
-    "level_text": "Coq theorems over every trace accepted by the copyGraph transition system (all graphs, all link-closed initial destinations, all K >= 1, all interleavings): successful return => every reachable node present and final destination = copy_result; Copy => destination reference resolves to the returned root (Tagger and ReferencePusher, root copied or already present; partial: a mounted non-manifest root is excluded and refuted by a witness); F12 witness proved. Tied to copy.go by trace acceptance + final-state equality on generated runs and an independent oracle (existence, byte identity, tag).",
+    "level_text": "Coq theorems over every trace accepted by the copyGraph transition system (all graphs, all link-closed initial destinations, all K >= 1, all interleavings): successful return => every reachable node present and final destination = copy_result; Copy => destination reference resolves to the returned root (Tagger, ReferencePusher and Mounter destinations; root copied, already present or mounted -- the latter since the fix f0a2d59, the pre-fix model is refuted by a witness); F12 witness proved. Tied to copy.go by trace acceptance + final-state equality on generated runs and an independent oracle (existence, byte identity, tag).",
     "level_note": "pairings exercised: memory / OCI layout / reopened OCI layout / file store / remote.Repository (over an in-process fake registry behind remote.Client, with real FetchReference, PushReference and cross-repository Mount) as source and as destination; in addition in-harness ReferenceFetcher/ReferencePusher/Mounter wrappers around the local stores; schedules: free-running goroutines with PRNG latencies/yields, plus controlled schedules under testing/synctest (every instrumented operation parks, a PRNG releases one parked operation at each quiescent point; several release orders per graph); MapRoot/platform selection opaque in the model; byte identity by oracle only",
     "technique": "machine-checked proof in Coq (invariants over all accepted traces of a per-node-phase transition system) + constants regenerated from copy.go + trace-acceptance correspondence + independent oracle",
     "explanation": "every recorded event trace of Copy/CopyGraph must be a run of Model/CopySpec.v and the final destination must equal copy_result; the oracle checks existence + bytes of every reachable node and the tag with the generator's ground truth",
